@@ -165,14 +165,15 @@ Fixpoint fac_doms_ok (t : tables) (ty : list nat) (ds : list dom) : bool :=
   | _, _ => true
   end.
 
-(** [add_factor]; the test [el in self.factors] compares a label with the string keys and
-    never fires (F14), so it is absent here *)
+(** [add_factor]: nonterminal test, label registered, "already mapped" test (by name, since
+    the fix of F14 in /repo commit 19d007a), arity test, domain tests, binding *)
 Definition t_add_factor (t : tables) (l : elabel) (f : factor) : tables * result :=
   if negb (el_term l) then (t, RErr ValueErr)
   else match t_add_edge_label t l with
        | (t, RErr k) => (t, RErr k)
        | (t, _) =>
-         if negb (Nat.eqb (length (f_doms f)) (length (el_ty l))) then (t, RErr ValueErr)
+         if amem Nat.eq_dec (t_fac t) (el_name l) then (t, RErr ValueErr)
+         else if negb (Nat.eqb (length (f_doms f)) (length (el_ty l))) then (t, RErr ValueErr)
          else if negb (fac_doms_ok t (el_ty l) (f_doms f)) then (t, RErr ValueErr)
          else (set_fac t (aset Nat.eq_dec (t_fac t) (el_name l) f), ROk)
        end.
